@@ -182,6 +182,9 @@ struct Sums {
     tcp_cases_clean: u64,
     udp_cases_clean: u64,
     refuse_cases_clean: u64,
+    /// (also counted in tcp_cases_clean / udp_cases_clean)
+    v6_cases_clean: u64,
+    stray_cases_clean: u64,
     max_wall_ms: u128,
     flaky: Vec<Value>,
     unconfirmed: u64,
@@ -229,16 +232,25 @@ struct Bounds {
     udp_lens: Vec<usize>,
     deadline_s: u64,
     parallel: usize,
+    /// the IPv6 loopback address exists here: the IPv6-literal sub-matrix is part of the matrix
+    ipv6_loopback: bool,
+    /// (client->target, target->client) lengths of the IPv6-literal sub-matrix
+    tcp_v6_lens: Vec<(usize, usize)>,
 }
+
+/// close order, chunking and connections of the IPv6-literal sub-matrix
+const V6_ORDER: Order = Order::ClientHalf;
+const V6_CHUNK: Chunk = Chunk::One;
+const V6_CONC: usize = 1;
 
 fn bounds(args: &Args) -> Bounds {
     // the default receive window is 512 frames and the bridges read at most 8 KiB per frame, so
     // 512 * 8 KiB = 4 MiB is the least stream length that certainly needs a window update
     if args.thorough() {
-        Bounds { tcp_lens: vec![0, 1, 4099, 3 * 512 * 8192 + 5], tcp_len_window: None, slow_udp: true, concs: vec![1, 3, 5], udp_lens: vec![0, 1, 2, 3, 4, 5, 1400, 1472, 9000, 65000], deadline_s: 40, parallel: args.threads.clamp(1, 8) }
+        Bounds { tcp_lens: vec![0, 1, 4099, 3 * 512 * 8192 + 5], tcp_len_window: None, slow_udp: true, concs: vec![1, 3, 5], udp_lens: vec![0, 1, 2, 3, 4, 5, 1400, 1472, 9000, 65000], deadline_s: 40, parallel: args.threads.clamp(1, 8), ipv6_loopback: tcp::ipv6_loopback(), tcp_v6_lens: vec![(1, 1), (70001, 70001)] }
     } else {
         // 70001 B: nine 8 KiB frames, everywhere; 4198403 B (one window + 4099 B: needs a window update): sub-matrix
-        Bounds { tcp_lens: vec![0, 1, 70001], tcp_len_window: Some(512 * 8192 + 4099), slow_udp: false, concs: vec![1, 3], udp_lens: vec![0, 1, 3, 4, 1400], deadline_s: 30, parallel: args.threads.clamp(1, 8) }
+        Bounds { tcp_lens: vec![0, 1, 70001], tcp_len_window: Some(512 * 8192 + 4099), slow_udp: false, concs: vec![1, 3], udp_lens: vec![0, 1, 3, 4, 1400], deadline_s: 30, parallel: args.threads.clamp(1, 8), ipv6_loopback: tcp::ipv6_loopback(), tcp_v6_lens: vec![(1, 1), (70001, 70001)] }
     }
 }
 
@@ -265,6 +277,22 @@ fn matrix(b: &Bounds) -> Vec<Case> {
                         }
                     }
                 }
+            }
+        }
+    }
+    if b.ipv6_loopback {
+        // target on [::1], named as an IPv6 literal by the entry points that can express one
+        for entry in Entry::V6 {
+            for &(c2t, t2c) in &b.tcp_v6_lens {
+                v.push(Case::Tcp(TcpCase { entry, c2t, t2c, chunk: V6_CHUNK, order: V6_ORDER, conc: V6_CONC }));
+            }
+        }
+    }
+    for kind in UKind::ALL {
+        for topo in Topo::STRAY {
+            let c = UdpCase { kind, size: udp::STRAY_LEN, topo };
+            if c.valid() {
+                v.push(Case::Udp(c));
             }
         }
     }
@@ -347,6 +375,15 @@ fn replay(env: &Env, v: &Value, mut rep: Report, b: &Bounds) -> Report {
         rep.machinery_error = Some(format!("replay: cannot interpret {v}"));
         return rep;
     };
+    if matches!(&case, Case::Tcp(t) if t.entry.v6literal()) && !b.ipv6_loopback {
+        // not a verdict and not an error: this machine cannot run the scenario
+        rep.rule = "replay of one recorded matrix point: SKIPPED, the scenario needs the IPv6 loopback address [::1], which does not exist here".into();
+        rep.bounds.insert("ipv6_loopback".into(), json!(false));
+        rep.extra.insert("ipv6_loopback".into(), json!(false));
+        rep.extra.insert("replayed".into(), case.to_json());
+        rep.extra.insert("skipped".into(), json!(true));
+        return rep;
+    }
     let tally = Tally::default();
     let mut obs = Vec::new();
     for run in 0..2 {
@@ -364,6 +401,7 @@ fn replay(env: &Env, v: &Value, mut rep: Report, b: &Bounds) -> Report {
     rep.distinct_nontrivial = 1;
     rep.rule = "replay of one recorded matrix point, executed twice (fresh server, client, target and local clients each time); the interleaving is again whatever the runtime produces".into();
     rep.extra.insert("replayed".into(), case.to_json());
+    rep.extra.insert("ipv6_loopback".into(), json!(b.ipv6_loopback));
     rep.extra.insert("observations_identical".into(), json!(obs[0] == obs[1]));
     rep.extra.insert("observations".into(), json!(obs));
     rep.assumptions.push("schedules are not owned: a failure that depends on the interleaving may not reproduce in a replay".into());
@@ -500,7 +538,8 @@ pub fn run(args: &Args) -> Report {
                                                 *c.entry(coarse(&f.key)).or_insert(0) += 1;
                                             }
                                         }
-                                        if c.values().sum::<u64>() >= 2 {
+                                        // (a first datagram after the idle gap that is late costs no waiting: no reason to cut the rest short)
+                                        if c.iter().filter(|(k, _)| !k.starts_with("udp.request.lost-after-idle-gap.")).map(|(_, n)| *n).sum::<u64>() >= 2 {
                                             degraded.store(true, Ordering::SeqCst);
                                         }
                                     }
@@ -523,6 +562,11 @@ pub fn run(args: &Args) -> Report {
                                         Case::Tcp(t) if t.order == Order::Refuse => g.refuse_cases_clean += 1,
                                         Case::Tcp(_) => g.tcp_cases_clean += 1,
                                         Case::Udp(_) => g.udp_cases_clean += 1,
+                                    }
+                                    match case {
+                                        Case::Tcp(t) if t.entry.v6literal() => g.v6_cases_clean += 1,
+                                        Case::Udp(u) if u.topo.stray().is_some() => g.stray_cases_clean += 1,
+                                        _ => {}
                                     }
                                 }
                             }
@@ -558,8 +602,21 @@ pub fn run(args: &Args) -> Report {
         None => format!("L = {:?} for every combination", b.tcp_lens),
         Some(w) => format!("L = {:?} for every combination, and L = {:?} (adds the window-exceeding length {w}) for the sub-matrix connections = 1 AND chunking = one-write (all 7 entry points, all 5 close orders)", b.tcp_lens, b.tcp_lens.iter().copied().chain([w]).collect::<Vec<_>>()),
     };
-    rep.rule = format!("complete product, every point enumerated (no sampling): TCP = entry point (7) x connections {:?} x chunking (3) x [close order (4) x client->target length in L x target->client length in L + target-refuses x client->target length in L], where {len_rule}; UDP = entry (UDP remote, SOCKS5 UDP with IPv4 header, with domain header) x topology (1 client, 3 clients, 1 socket to 2 entry points, 1 client whose payload lengths change from datagram to datagram (len, 3, len+500, 0, len+1); SOCKS5 only: 1 association alternating between 2 targets with the same host string and different ports, and between 2 targets with different host strings 127.0.0.1/127.0.0.2 and the same port) x payload length, 3 request/reply exchanges per leg{}; one execution per point (more only after a lost port race or a deadline hit); a case is distinct when its parameter tuple is distinct", b.concs, if b.slow_udp { format!("; plus the real-time scenarios: UDP entry (3) x [steady sender: 1 datagram of {} bytes per second for 2*UDP_PRUNE_TIMEOUT+3 = {} s to a silent target, which then answers the last one | idle: one exchange, {} s of silence, one more exchange]", udp::SLOW_LEN, 2 * udp::prune_timeout().as_secs() + 3, 2 * udp::prune_timeout().as_secs() + 1) } else { String::new() });
+    let v6_rule = if b.ipv6_loopback {
+        format!("; plus the IPv6-literal sub-matrix (target listens on [::1]): entry point (remote specification with [::1]:port, SOCKS5 CONNECT with ATYP=4, HTTP CONNECT [::1]:port) x (client->target, target->client) lengths {:?}, {} connection, {}, {}", b.tcp_v6_lens, V6_CONC, V6_CHUNK.name(), V6_ORDER.name())
+    } else {
+        "; the IPv6-literal sub-matrix (target on [::1]) is SKIPPED: this machine has no IPv6 loopback address".to_string()
+    };
+    let stray_rule = format!("; plus SOCKS5 UDP (IPv4 header, domain header) x stray datagram to the relay port from another local socket after the first exchange ({}) with {}-byte payloads, 3 exchanges", Topo::STRAY.iter().filter_map(|t| t.stray()).map(|(d, n)| format!("{n}: {}", vcommon::report::hex(d))).collect::<Vec<_>>().join(", "), udp::STRAY_LEN);
+    rep.rule = format!("complete product, every point enumerated (no sampling): TCP = entry point (7) x connections {:?} x chunking (3) x [close order (4) x client->target length in L x target->client length in L + target-refuses x client->target length in L], where {len_rule}{v6_rule}; UDP = entry (UDP remote, SOCKS5 UDP with IPv4 header, with domain header) x topology (1 client, 3 clients, 1 socket to 2 entry points, 1 client whose payload lengths change from datagram to datagram (len, 3, len+500, 0, len+1); SOCKS5 only: 1 association alternating between 2 targets with the same host string and different ports, and between 2 targets with different host strings 127.0.0.1/127.0.0.2 and the same port) x payload length, 3 request/reply exchanges per leg{stray_rule}{}; one execution per point (more only after a lost port race or a deadline hit); a case is distinct when its parameter tuple is distinct", b.concs, if b.slow_udp { format!("; plus the real-time scenarios: UDP entry (3) x [steady sender: 1 datagram of {} bytes per second for 2*UDP_PRUNE_TIMEOUT+3 = {} s to a silent target, which then answers the last one | idle: one exchange, {} s of silence, one more exchange | idle gap between one and two prune timeouts: one exchange, {} s of silence, one more exchange from the same socket whose FIRST transmission must be at the target within {} ms]", udp::SLOW_LEN, 2 * udp::prune_timeout().as_secs() + 3, 2 * udp::prune_timeout().as_secs() + 1, udp::prune_timeout().as_secs() + udp::GAP_EXTRA_S, udp::GAP_FIRST_TX_MS) } else { String::new() });
     rep.bounds.insert("tcp_entry_points".into(), json!(Entry::ALL.iter().map(|e| e.name()).collect::<Vec<_>>()));
+    rep.bounds.insert("ipv6_loopback".into(), json!(b.ipv6_loopback));
+    rep.bounds.insert("tcp_ipv6_literal_entry_points".into(), json!(if b.ipv6_loopback { Entry::V6.iter().map(|e| e.name()).collect::<Vec<_>>() } else { Vec::new() }));
+    rep.bounds.insert("tcp_ipv6_literal_payload_lengths_c2t_t2c".into(), json!(b.tcp_v6_lens));
+    rep.bounds.insert("tcp_ipv6_literal_cases".into(), json!(cases.iter().filter(|c| matches!(c, Case::Tcp(t) if t.entry.v6literal())).count()));
+    rep.bounds.insert("udp_stray_datagram_topologies".into(), json!(Topo::STRAY.iter().map(|e| e.name()).collect::<Vec<_>>()));
+    rep.bounds.insert("udp_stray_datagram_payload_length".into(), json!(udp::STRAY_LEN));
+    rep.bounds.insert("udp_stray_datagram_cases".into(), json!(cases.iter().filter(|c| matches!(c, Case::Udp(u) if u.topo.stray().is_some())).count()));
     rep.bounds.insert("tcp_payload_lengths".into(), json!(b.tcp_lens));
     rep.bounds.insert("tcp_payload_length_only_for_1_connection_one_write".into(), json!(b.tcp_len_window));
     rep.bounds.insert("tcp_connections".into(), json!(b.concs));
@@ -575,6 +632,9 @@ pub fn run(args: &Args) -> Report {
     rep.bounds.insert("udp_cases".into(), json!(n_udp));
     rep.bounds.insert("deadline_s".into(), json!(b.deadline_s));
     rep.bounds.insert("parallel_scenarios".into(), json!(b.parallel));
+    rep.extra.insert("ipv6_loopback".into(), json!(b.ipv6_loopback));
+    rep.extra.insert("tcp_ipv6_literal_cases_clean".into(), json!(sums.v6_cases_clean));
+    rep.extra.insert("udp_stray_datagram_cases_clean".into(), json!(sums.stray_cases_clean));
     rep.extra.insert("executions".into(), json!(tally.executions.load(Ordering::Relaxed)));
     rep.extra.insert("time_wait_throttle_ms_total".into(), json!(tally.throttle_ms.load(Ordering::Relaxed)));
     rep.extra.insert("subject_listener_port_pool".into(), json!(super::c01_env::port_pool_range()));
@@ -618,7 +678,9 @@ pub fn run(args: &Args) -> Report {
         rep.caps_hit.push(format!("after two deadline failures were confirmed alone, the remaining scenarios ran with a {SHORT_DEADLINE_S} s deadline and repeated failures were counted without a re-run (counts of those keys are approximate)"));
     }
     // samples: one per kind of scenario
-    let picks: [&dyn Fn(&Case) -> bool; 6] = [
+    let picks: [&dyn Fn(&Case) -> bool; 8] = [
+        &|c| matches!(c, Case::Tcp(t) if t.entry == Entry::HttpConnectV6 && t.c2t > 1),
+        &|c| matches!(c, Case::Udp(u) if u.kind == UKind::SocksIp && u.topo == Topo::StrayAtyp),
         &|c| matches!(c, Case::Tcp(t) if t.order == Order::ClientHalf && t.conc > 1 && t.c2t > 1 && t.t2c > 1 && t.entry == Entry::Socks5Domain),
         &|c| matches!(c, Case::Tcp(t) if t.order == Order::TargetClose && t.entry == Entry::HttpConnect && t.c2t == 1 && t.t2c > 1),
         &|c| matches!(c, Case::Tcp(t) if t.order == Order::Refuse && t.entry == Entry::Socks4a),
@@ -637,8 +699,10 @@ pub fn run(args: &Args) -> Report {
     rep.assumptions.push("how a read ends after BOTH directions are finished (EOF or reset) is recorded, not judged; a half-close must arrive as a true EOF and the data sent after it must arrive completely".into());
     rep.assumptions.push("target refuses: a SOCKS/HTTP success answer followed by a close, a refusal answer, or a close before the answer all count as 'closed rather than left hanging'".into());
     rep.assumptions.push("the address inside the SOCKS5 UDP reply header is recorded (extra.socks5_udp_header_addr_*), not judged: the statement only demands a well-formed header that can be stripped".into());
-    rep.assumptions.push("loopback only (127.0.0.1 and a Unix socket); plain ws:// between client and server; keep-alive off; fresh client+server per matrix point".into());
+    rep.assumptions.push("loopback only (127.0.0.1, a Unix socket and, for the targets of the IPv6-literal sub-matrix where it exists, [::1]); plain ws:// between client and server; keep-alive off; fresh client+server per matrix point".into());
     rep.assumptions.push("UDP loss tolerance: a request is retransmitted up to 5 times over 21.5 s before its reply counts as missing".into());
+    rep.assumptions.push(format!("exceptions to the UDP loss tolerance, both judged on purpose before the schedule is used up: (a) idle-gap scenario: the FIRST datagram after the gap has {} ms to show up at the target (a deadline-type failure: it counts only when it shows again with the scenario run alone); (b) stray-datagram scenarios: an exchange unanswered after 3 transmissions is declared dead only if a fresh association through the same client, server and target then works and a 4th transmission on the old association (waiting at least 1 s and at least 20 times what the fresh association took) still gets nothing", udp::GAP_FIRST_TX_MS));
+    rep.assumptions.push("IPv6-literal sub-matrix: a scenario in which every local connection has ended short of the target's payload while the target was never connected to is closed at once (key tcp.closed.target-not-reached.*) instead of waiting for the deadline".into());
 
     if sums.unconfirmed > 0 {
         rep.caps_hit.push(format!("{} scenario(s) hit a deadline after the {iso_cap} confirmation runs (alone, full deadline) were used up; they carry no verdict", sums.unconfirmed));
